@@ -609,6 +609,26 @@ def opBipDerive (args0 : List String) : String :=
            toHex fin.marshal ++ " | " ++ extKeyFields fin.neuter) ++ "\t="
   | _ => "bad-args"
 
+/-- `bip_derive_from <82 bytes> <path>`: decode a serialised key (any depth byte) and derive the path from it -/
+def opBipDeriveFrom (args0 : List String) : String :=
+  let (args, orc) := parseBipOracle args0
+  let O := orc.toOracles
+  match args with
+  | [binS, pathS] =>
+    match ofHex binS with
+    | none => "bad-hex"
+    | some bin =>
+      let path := parsePathArg pathS
+      let res : Except BipErr (Option Nat × ExtKey) := do
+        let k ← unmarshal bin
+        deriveWithIL O k path none
+      (match res with
+       | .error e => "err " ++ e.name
+       | .ok (il, fin) =>
+         "ok " ++ (match il with | some v => natHex32 v | none => "-") ++ " " ++ extKeyFields fin ++ " " ++
+           toHex fin.marshal ++ " | " ++ extKeyFields fin.neuter) ++ "\t="
+  | _ => "bad-args"
+
 def opBipUnmarshal (args : List String) : String :=
   match args.mapM ofHex with
   | some [b] =>
@@ -692,6 +712,7 @@ def runOp (line : String) : String :=
     | "ecdh" => opEcdh args
     | "interop" => opInterop args
     | "bip_derive" => opBipDerive args
+    | "bip_derive_from" => opBipDeriveFrom args
     | "bip_unmarshal" => opBipUnmarshal args
     | "bip_fromstring" => opBipFromString args
     | "nonce" => opNonce args
